@@ -5,7 +5,9 @@ status decision is control- or data-dependent on the method after the 405 gate;
 (R2) no HEAD path calls Entity::get_range or returns a streamed body, HEAD bodies
 of 200/206/304/416 are the empty one-shot body; (R3/R4) `streaming_body`:
 body_needed is exactly `method != HEAD`, `build` returns no writer when it is
-false and its header effects do not depend on it.  Does not decide: Date values
+false and its header effects do not depend on it; (R3) the negotiation flag that
+`build` reads is should_gzip(request headers) on every constructor path whatever the
+method, and no setter rewrites it or the body-needed flag.  Does not decide: Date values
 (clock)."""
 from . import serve_model as SM
 from . import streaming as ST
